@@ -1,69 +1,162 @@
 """C09 Resource pools: usage = outstanding reservations; requests atomic.
 
 Real ResourceManager / ReservedResources on a real Environment.  A run is a
-sequence of N pool operations; operation codes, name selectors and amounts are
-symbolic ints (amounts unbounded).  After every operation the invariants of the
-property are asserted from the public accessors.
+sequence of N pool operations.  The *shape* of the sequence (operation kinds,
+which names, which reservation) is concrete per analysis and enumerated
+completely; all amounts are symbolic ints.  After every operation the
+invariants of the property are asserted from the public accessors.
 """
 from simprocesd.model import Environment, ResourceManager
 
 PROPERTY = 'C09'
 NAMES = ['a', 'b', 'u']            # 'u' is never given capacity up front
 PAIRS = [('a', 'b'), ('b', 'a'), ('a', 'u'), ('u', 'a'), ('a',), ('b',)]
-OPS = ['add', 'reserve', 'release_all', 'release_part', 'merge', 'add_b']
+AMOUNT = 10 ** 9   # |amount| bound: far below 2**53, so the repository's float 0.0 start value stays exact
+MAXRES = 3
 
 ENCODED = ['ResourceManager.add_resources', 'ResourceManager.reserve_resources',
            'ResourceManager._can_fulfill_request', 'ResourceManager._release_resources',
            'ResourceManager.get_resource_usage', 'ResourceManager.get_resource_capacity',
            'ResourceManager._record_resource_amount_update', 'ResourceManager._schedule_check_pending_requesters',
+           'ResourceManager._check_pending_requests',
            'ReservedResources.release', 'ReservedResources.merge', 'ReservedResources.reserved_resources',
            'Environment.schedule_event', 'Environment.step', 'Environment.add_datapoint']
+ASSUMPTIONS = [
+    'S8 the float literal 0.0 with which the repository starts a usage counter is normalised to the int 0 in the '
+    'symbolic run (equal value; integer amounts |x| <= 10**9 keep every float exact); replays use the unmodified class',
+    'integer amounts only (float amounts are outside: 0.1+0.2 is not exact and usage == sum is then not promised)',
+    'a zero entry for a resource the reservation does not hold may be rejected or accepted by release()',
+]
+
+
+def bounds_text(tier):
+    n, m = (2, 1) if tier == 'quick' else (3, 2)
+    return (f'(seq) all sequences of {n} operations from a pool a:ca b:cb (ca, cb symbolic >= 1, third name never added) over '
+            f'the alphabet add(name; amount) / reserve(one or two entries, both key orders, incl. the unknown name) / '
+            f'release-all(r) / release-partial(r, two entries in both orders) / merge(ri, rj); '
+            f'(step) {m} such operation(s) applied to every state reached by a prefix of 1-2 granted reservations with '
+            f'symbolic holdings, optionally followed by a symbolic capacity reduction (also below usage); at most '
+            f'{MAXRES} live reservations; all amounts symbolic ints in [-1e9, 1e9]')
+
+
+def _alphabet(nres):
+    ops = [['A', n] for n in NAMES] + [['R', i] for i in range(len(PAIRS))]
+    for r in range(min(nres, 2)):
+        ops.append(['F', r])
+        for pi in range(4):
+            ops.append(['P', r, pi])
+    if nres >= 2:
+        ops += [['M', 0, 1], ['M', 1, 0]]
+    return ops
+
+
+def _sequences(n, prefix=(), nres=0):
+    if n == 0:
+        yield list(prefix)
+        return
+    for op in _alphabet(nres):
+        yield from _sequences(n - 1, prefix + (op,), min(MAXRES, nres + (1 if op[0] == 'R' else 0)))
+
+
+# prefixes that generate "any reachable state" with 1-2 live reservations: (ops, extra preconditions)
+_PREFIXES = [
+    ([['R', 0]], ['0 <= x0 <= ca', '0 <= y0 <= cb', 'x0 + y0 >= 1']),
+    ([['R', 0], ['R', 1]], ['0 <= x0 <= ca', '0 <= y0 <= cb', 'x0 + y0 >= 1',
+                           '0 <= x1 <= cb - y0', '0 <= y1 <= ca - x0', 'x1 + y1 >= 1']),
+    ([['R', 0], ['A', 'a']], ['0 <= x0 <= ca', '0 <= y0 <= cb', 'x0 >= 1', '-ca <= x1 <= -1']),
+    ([['R', 0], ['R', 4], ['A', 'a']], ['0 <= x0 <= ca', '0 <= y0 <= cb', 'x0 + y0 >= 1',
+                                        '1 <= x1 <= ca - x0', '-ca <= x2 <= -1']),
+]
+
+
+def _params(seq):
+    params = [['ca', 1, AMOUNT], ['cb', 1, AMOUNT]]
+    for i, op in enumerate(seq):
+        if op[0] == 'A':
+            params.append([f'x{i}', -AMOUNT, AMOUNT])
+        elif op[0] in 'RP':
+            names = PAIRS[op[-1]]
+            params.append([f'x{i}', -AMOUNT, AMOUNT])
+            if len(names) > 1:
+                params.append([f'y{i}', -AMOUNT, AMOUNT])
+    return params
+
+
+def _name(seq):
+    return '.'.join(''.join(map(str, op)) for op in seq)
 
 
 def jobs(tier):
-    n = 3 if tier == 'quick' else 4
+    n, m = (2, 1) if tier == 'quick' else (3, 2)
+    subs = []
+    for seq in _sequences(n):
+        subs.append({'name': 'seq:' + _name(seq), 'shape': {'ops': seq}, 'params': _params(seq)})
+    for pre_ops, pre in _PREFIXES:
+        nres = sum(1 for o in pre_ops if o[0] == 'R')
+        for tail in _sequences(m, nres=nres):
+            seq = pre_ops + tail
+            subs.append({'name': 'step:' + _name(pre_ops) + '|' + _name(tail), 'shape': {'ops': seq},
+                         'params': _params(seq), 'pre': pre})
+    njobs = 64 if tier == 'quick' else 256
     out = []
-    # case split on the first operation code(s); everything else symbolic
-    import itertools
-    firsts = itertools.product(range(5), repeat=1 if tier == 'quick' else 2)
-    for f in firsts:
-        params, pre = [], []
-        for i in range(n):
-            if i < len(f):
-                pre.append(f'op{i} == {f[i]}')
-            params += [[f'op{i}', 0, 4], [f'k{i}', 0, 5], [f'x{i}', None, None], [f'y{i}', None, None]]
-        out.append({'name': f'pool-n{n}-' + ''.join(map(str, f)), 'shape': {'n': n, 'c0': 2, 'c1': 1},
-                    'params': params, 'pre': pre, 'weights': 'fifo',
-                    'timeout': 150 if tier == 'quick' else 900})
+    for j in range(njobs):
+        chunk = subs[j::njobs]
+        if chunk:
+            out.append({'name': f'pool-{j:03d}', 'subs': chunk, 'weights': 'fifo',
+                        'timeout': 170 if tier == 'quick' else 1500})
     return out
 
 
+def required_goals(tier):
+    return ['add_rejected', 'capacity_reduced', 'capacity_below_usage', 'reserve_raised', 'reserve_refused',
+            'reserve_granted', 'release_again', 'release_rejected', 'release_partial_ok', 'merged']
+
+
 def signature(failure):
-    """Class of a failure, for matching against known_findings.json."""
     return failure['label']
 
 
-def _snapshot(rm, res):
+class _IntPool(ResourceManager):
+    '''S8 (see ASSUMPTIONS).'''
+
+    def add_resources(self, resource_name, amount):
+        super().add_resources(resource_name, amount)
+        cur = self._resources.get(resource_name)
+        if cur is not None and type(cur[0]) is float and cur[0] == 0.0:
+            self._resources[resource_name] = (0, cur[1])
+
+
+def _num(v):
+    # the accessors answer the float literal 0.0 for a resource that was never added
+    return 0 if (type(v) is float and v == 0.0) else v
+
+
+def _snapshot(ctx, rm, res):
     pool = {n: (rm.get_resource_usage(n), rm.get_resource_capacity(n)) for n in NAMES}
     held = [r.reserved_resources for r in res]
+    with ctx.notrace():
+        pool = {n: (_num(ctx.z(u)), _num(ctx.z(c))) for n, (u, c) in pool.items()}
+        held = [ctx.z(h) for h in held]
     return pool, held
 
 
 def _same(ctx, before, after, label, detail):
     pb, hb = before
     pa, ha = after
+    conds = []
     for n in NAMES:
-        ctx.require(pa[n][0] == pb[n][0], label, detail + f' usage[{n}] changed')
-        ctx.require(pa[n][1] == pb[n][1], label, detail + f' capacity[{n}] changed')
+        conds.append(pa[n][0] == pb[n][0])
+        conds.append(pa[n][1] == pb[n][1])
     ctx.require(len(ha) == len(hb), label, detail)
     for x, y in zip(hb, ha):
-        ctx.require(set(x) == set(y), label, detail + ' holdings keys changed')
+        ctx.require(set(x) == set(y), label, detail + ' (holdings keys changed)')
         for n in x:
-            ctx.require(x[n] == y[n], label, detail + f' holding[{n}] changed')
+            conds.append(x[n] == y[n])
+    ctx.require(ctx.And(*conds), label, detail)
 
 
-def _invariants(ctx, rm, res, before, reducing_add_on):
-    pool, held = _snapshot(rm, res)
+def _invariants(ctx, snap, before, reducing):
+    pool, held = snap
     for n in NAMES:
         use, cap = pool[n]
         total = 0
@@ -72,23 +165,24 @@ def _invariants(ctx, rm, res, before, reducing_add_on):
         ctx.require(use == total, 'usage!=sum(holdings)', f'resource {n}')
         ctx.require(use >= 0, 'usage<0', f'resource {n}')
         ctx.require(cap >= 0, 'capacity<0', f'resource {n}')
-        if n != reducing_add_on:
-            ub, cb = before[0][n]
-            over_b = ub - cb
-            over_a = use - cap
-            # usage may exceed capacity only through an explicit reduction
-            ctx.require(over_a <= 0 or over_a <= over_b, 'usage>capacity without reduction', f'resource {n}')
+        ub, cb = before[0][n]
+        over_b = ub - cb
+        over_a = use - cap
+        allowed = ctx.Or(over_a <= 0, over_a <= over_b)
+        if reducing is not None and reducing[0] == n:
+            allowed = ctx.Or(allowed, reducing[1])
+        # usage may exceed capacity only through an explicit reduction
+        ctx.require(allowed, 'usage>capacity without reduction', f'resource {n}')
     for h in held:
         for n, v in h.items():
             ctx.require(v > 0, 'non-positive holding kept', f'{n}')
-    return pool, held
 
 
 def run(shape, args, ctx):
     env = Environment()
-    rm = ResourceManager()
-    rm.add_resources('a', shape.get('c0', 2))
-    rm.add_resources('b', shape.get('c1', 1))
+    rm = _IntPool() if ctx.symbolic else ResourceManager()
+    rm.add_resources('a', args['ca'])
+    rm.add_resources('b', args['cb'])
     rm.initialize(env)
     res = []
 
@@ -96,92 +190,94 @@ def run(shape, args, ctx):
         while env._events:
             env.step()
 
-    for i in range(shape['n']):
-        op, k, x, y = args[f'op{i}'], args[f'k{i}'], args[f'x{i}'], args[f'y{i}']
-        before = _snapshot(rm, res)
+    snap = _snapshot(ctx, rm, res)
+    for i, op in enumerate(shape['ops']):
+        x, y = args.get(f'x{i}', 0), args.get(f'y{i}', 0)
+        zx, zy = ctx.z(x), ctx.z(y)
+        before = snap
         reducing = None
         ctx.count('ops')
-        if op == 0 or op == 5:                                   # add / reduce capacity
-            name = NAMES[k % 3]
+        kind = op[0]
+        if kind == 'A':                                          # add / reduce capacity
+            name = op[1]
             raised = False
             try:
                 rm.add_resources(name, x)
             except ValueError:
                 raised = True
-            after = _snapshot(rm, res)
-            if raised:
-                ctx.goal('add_rejected')
-                _same(ctx, before, after, 'raised but changed state', f'add_resources({name!r}, amount<0)')
-                # the documented error is for reductions below zero only
-                ctx.require(x < 0 and before[0][name][1] + x < 0, 'add rejected a legal amount', name)
-            else:
-                ctx.require(after[0][name][1] == before[0][name][1] + x, 'add: capacity != old+amount', name)
-                ctx.require(after[0][name][0] == before[0][name][0], 'add changed usage', name)
-                if x < 0:
-                    reducing = name
-                    ctx.goal('capacity_reduced')
-                    if after[0][name][1] < after[0][name][0]:
-                        ctx.goal('capacity_below_usage')
-        elif op == 1:                                            # reserve
-            names = PAIRS[k % len(PAIRS)]
+            after = _snapshot(ctx, rm, res)
+            with ctx.notrace():
+                if raised:
+                    ctx.goal('add_rejected')
+                    _same(ctx, before, after, 'raised but changed state', f'add_resources({name!r}, amount<0)')
+                    # the documented error is for reductions below zero only
+                    ctx.require(ctx.And(zx < 0, before[0][name][1] + zx < 0), 'add rejected a legal amount', name)
+                else:
+                    ctx.require(after[0][name][1] == before[0][name][1] + zx, 'add: capacity != old+amount', name)
+                    ctx.require(after[0][name][0] == before[0][name][0], 'add changed usage', name)
+                    reducing = (name, zx < 0)
+                    ctx.goal_if('capacity_reduced', zx < 0)
+                    ctx.goal_if('capacity_below_usage', ctx.And(zx < 0, after[0][name][1] < after[0][name][0]))
+        elif kind == 'R':                                        # reserve
+            names = PAIRS[op[1]]
             req = {names[0]: x}
+            amounts = {names[0]: zx}
             if len(names) > 1:
                 req[names[1]] = y
-            amounts = dict(req)
+                amounts[names[1]] = zy
             raised = False
             r = None
             try:
                 r = rm.reserve_resources(req)
             except ValueError:
                 raised = True
-            after = _snapshot(rm, res)
-            fits = True
-            nonneg = True
-            for n, v in amounts.items():
-                if v < 0:
-                    nonneg = False
-                elif v > 0 and before[0][n][1] - before[0][n][0] < v:
-                    fits = False
-            if raised:
-                ctx.goal('reserve_raised')
-                ctx.require(not nonneg, 'reserve raised on a non-negative request', str(names))
-                _same(ctx, before, after, 'raised but changed state', f'reserve_resources({list(amounts)}) with a negative entry')
-            elif r is None:
-                ctx.goal('reserve_refused')
-                ctx.require(not (fits and nonneg), 'feasible request refused', str(names))
-                _same(ctx, before, after, 'refused but changed state', 'reserve_resources')
-            else:
-                ctx.goal('reserve_granted')
-                ctx.require(fits and nonneg, 'infeasible request granted', str(names))
-                held = r.reserved_resources
-                for n, v in amounts.items():
-                    ctx.require(after[0][n][0] == before[0][n][0] + v, 'reserve took != requested', n)
-                    ctx.require(held.get(n, 0) == v, 'reservation holds != requested', n)
-                for n in NAMES:
-                    if n not in amounts:
-                        ctx.require(after[0][n][0] == before[0][n][0], 'reserve touched other resource', n)
-                if len(res) < 3:
+            after = _snapshot(ctx, rm, res + ([r] if r is not None else []))
+            with ctx.notrace():
+                fits = ctx.And(*[ctx.Or(v <= 0, before[0][n][1] - before[0][n][0] >= v) for n, v in amounts.items()])
+                nonneg = ctx.And(*[v >= 0 for v in amounts.values()])
+                if raised:
+                    ctx.goal('reserve_raised')
+                    ctx.require(ctx.Not(nonneg), 'reserve raised on a non-negative request', str(names))
+                    _same(ctx, before, (after[0], after[1][:len(res)]), 'raised but changed state',
+                          f'reserve_resources({list(amounts)}) with a negative entry')
+                elif r is None:
+                    ctx.goal('reserve_refused')
+                    ctx.require(ctx.Not(ctx.And(fits, nonneg)), 'feasible request refused', str(names))
+                    _same(ctx, before, after, 'refused but changed state', 'reserve_resources')
+                else:
+                    ctx.goal('reserve_granted')
+                    ctx.require(ctx.And(fits, nonneg), 'infeasible request granted', str(names))
+                    held = after[1][-1]
+                    for n, v in amounts.items():
+                        ctx.require(after[0][n][0] == before[0][n][0] + v, 'reserve took != requested', n)
+                        ctx.require(held.get(n, 0) == v, 'reservation holds != requested', n)
+                    for n in NAMES:
+                        if n not in amounts:
+                            ctx.require(after[0][n][0] == before[0][n][0], 'reserve touched other resource', n)
+            if r is not None:
+                if len(res) < MAXRES:
                     res.append(r)
                 else:
                     r.release()
-        elif op == 2:                                            # release everything (also repeated)
-            if res:
-                r = res[k % len(res)]
-                if not r.reserved_resources:
+        elif kind == 'F':                                        # release everything (also repeated)
+            if op[1] < len(res):
+                r = res[op[1]]
+                hb = before[1][op[1]]
+                if not hb:
                     ctx.goal('release_again')
-                hb = r.reserved_resources
                 r.release()
-                after = _snapshot(rm, res)
-                for n in NAMES:
-                    ctx.require(after[0][n][0] == before[0][n][0] - hb.get(n, 0), 'release-all gave back != held', n)
-                ctx.require(r.reserved_resources == {}, 'release-all left holdings')
-        elif op == 3:                                            # partial release, both key orders, odd entries
-            if res:
-                r = res[k % len(res)]
-                names = PAIRS[(k // 3) % 4]
+                after = _snapshot(ctx, rm, res)
+                with ctx.notrace():
+                    for n in NAMES:
+                        ctx.require(after[0][n][0] == before[0][n][0] - hb.get(n, 0), 'release-all gave back != held', n)
+                    ctx.require(after[1][op[1]] == {}, 'release-all left holdings')
+        elif kind == 'P':                                        # partial release, both key orders, odd entries
+            if op[1] < len(res):
+                r = res[op[1]]
+                names = PAIRS[op[2]]
                 part = {names[0]: x, names[1]: y}
-                amounts = dict(part)
-                hb = r.reserved_resources
+                amounts = {names[0]: zx, names[1]: zy}
+                hb = before[1][op[1]]
                 raised = None
                 try:
                     r.release(part)
@@ -189,36 +285,38 @@ def run(shape, args, ctx):
                     raised = 'ValueError'
                 except KeyError:
                     raised = 'KeyError'
-                after = _snapshot(rm, res)
-                legal = True
-                for n, v in amounts.items():
-                    if v < 0 or v > hb.get(n, 0):
-                        legal = False
-                if raised:
-                    ctx.goal('release_rejected')
-                    _same(ctx, before, after, 'raised but changed state',
-                          f'release({list(amounts)}) raised {raised}')
-                    ctx.require(not legal, 'legal partial release rejected', raised)
-                else:
-                    ctx.goal('release_partial_ok')
-                    ctx.require(legal, 'illegal partial release accepted', str(names))
-                    ha = r.reserved_resources
-                    for n in NAMES:
-                        v = amounts.get(n, 0)
-                        ctx.require(after[0][n][0] == before[0][n][0] - v, 'partial release gave back != released', n)
-                        ctx.require(ha.get(n, 0) == hb.get(n, 0) - v, 'holding not reduced by released amount', n)
-        elif op == 4:                                            # merge two distinct reservations
-            if len(res) >= 2:
-                i1 = k % len(res)
-                i2 = (i1 + 1 + (k // 3) % (len(res) - 1)) % len(res)
-                a, b = res[i1], res[i2]
-                ha, hb = a.reserved_resources, b.reserved_resources
+                after = _snapshot(ctx, rm, res)
+                with ctx.notrace():
+                    legal = ctx.And(*[ctx.And(v >= 0, v <= hb.get(n, 0)) for n, v in amounts.items()])
+                    # a zero entry for a resource this reservation does not hold: the statement does
+                    # not say whether that is an error
+                    ambiguous = any(n not in hb for n in amounts)
+                    if raised:
+                        ctx.goal('release_rejected')
+                        _same(ctx, before, after, 'raised but changed state', f'release({list(amounts)}) raised {raised}')
+                        if not ambiguous:
+                            ctx.require(ctx.Not(legal), 'legal partial release rejected', raised)
+                    else:
+                        ctx.goal('release_partial_ok')
+                        ctx.require(legal, 'illegal partial release accepted', str(names))
+                        ha = after[1][op[1]]
+                        for n in NAMES:
+                            v = amounts.get(n, 0)
+                            ctx.require(after[0][n][0] == before[0][n][0] - v, 'partial release gave back != released', n)
+                            ctx.require(ha.get(n, 0) == hb.get(n, 0) - v, 'holding not reduced by released amount', n)
+        elif kind == 'M':                                        # merge two distinct reservations
+            if max(op[1], op[2]) < len(res):
+                a, b = res[op[1]], res[op[2]]
+                ha, hb = before[1][op[1]], before[1][op[2]]
                 a.merge(b)
                 ctx.goal('merged')
-                after = _snapshot(rm, res)
-                for n in NAMES:
-                    ctx.require(after[0][n][0] == before[0][n][0], 'merge changed usage', n)
-                    ctx.require(a.reserved_resources.get(n, 0) == ha.get(n, 0) + hb.get(n, 0), 'merge lost holdings', n)
-                ctx.require(b.reserved_resources == {}, 'merge source not emptied')
+                after = _snapshot(ctx, rm, res)
+                with ctx.notrace():
+                    for n in NAMES:
+                        ctx.require(after[0][n][0] == before[0][n][0], 'merge changed usage', n)
+                        ctx.require(after[1][op[1]].get(n, 0) == ha.get(n, 0) + hb.get(n, 0), 'merge lost holdings', n)
+                    ctx.require(after[1][op[2]] == {}, 'merge source not emptied')
         drain()
-        _invariants(ctx, rm, res, before, reducing)
+        snap = _snapshot(ctx, rm, res)
+        with ctx.notrace():
+            _invariants(ctx, snap, before, reducing)
